@@ -81,6 +81,18 @@ Definition remove_stage (idx : index) (path : bytes) : option index :=
   | None => None
   end.
 
+(* index.FromFile refuses a line that names a stage file outside the project (absolute, or
+   escaping through ".." once cleaned): commit writes stage files back, so they must live inside.
+   The whole-command model (System.step_checked) applies it to every line before anything else. *)
+Definition index_line_ok (l : bytes) : bool :=
+  let c := clean l in
+  negb (is_abs c) &&
+  negb (match c with
+        | 46 :: 46 :: [] => true
+        | 46 :: 46 :: 47 :: _ => true
+        | _ => false
+        end).
+
 (* index.FromFile: every listed stage file must load, validate and be addable, in file order *)
 Fixpoint load_index (lines : list bytes) (files : list (bytes * option stage)) (idx : index) : option index :=
   match lines with
